@@ -9,8 +9,8 @@ Definition qview := (Z * Z * option Z * nat * nat)%type.      (* subroutine, res
 
 Record obs := mkObs {
   o_fault : Z;                          (* -1 none, else exception class *)
-  o_arrs : list (Z * list (option Z));  (* sorted *)
-  o_um : list (option Z);
+  o_arrs : list ((Z * Z) * list (option Z));  (* (application, address), sorted *)
+  o_ums : list (Z * list (option Z));         (* application -> unit module, sorted *)
   o_creq : list (key * list qview);     (* sorted by key, non-empty queues only *)
   o_rreq : list (key * list qview);
   o_pend : list (list Z);
@@ -22,7 +22,8 @@ Definition err_code (e : err) : Z :=
   | EUnknownSub | EOutHigh => 1
   | EIndex => 2
   | EVirtNone | EBusy | ENotAllocated => 3
-  | ETypeMismatch | EResSlice => 99     (* any exception class *)
+  | EAlready => 3
+  | ETypeMismatch | EResSlice | ENoApp => 99     (* any exception class *)
   | EBadEvent | EFuel => 98             (* never happens in the implementation *)
   end.
 
@@ -57,8 +58,8 @@ Definition obs_ok (r : state * option err) (ob : obs) : bool :=
   | None =>
       let s := fst r in
       (o_fault ob =? -1) &&
-      arrs_eqb (sort_keys Z.ltb (arrs s)) (o_arrs ob) &&
-      arr_eqb (um s) (o_um ob) &&
+      list_eqb (kv_eqb pair_eqb arr_eqb) (sort_keys pair_ltb (arrs s)) (o_arrs ob) &&
+      arrs_eqb (sort_keys Z.ltb (ums s)) (o_ums ob) &&
       queues_eqb (group true (reqs s)) (o_creq ob) &&
       queues_eqb (group false (reqs s)) (o_rreq ob) &&
       list_eqb (list_eqb Z.eqb) (map info_of (pend s)) (o_pend ob) &&
@@ -79,4 +80,4 @@ Fixpoint bad_t (pm : pmap) (s : state) (t : tcase) : list Z :=
       else [id]
   end.
 
-Definition failing (pm : pmap) (nd : Z) (n : nat) (ts : list tcase) : list Z := flat_map (bad_t pm (init_state nd n)) ts.
+Definition failing (pm : pmap) (nd : Z) (ts : list tcase) : list Z := flat_map (bad_t pm (init_state nd)) ts.
